@@ -191,3 +191,46 @@ def layout_agreement(ctx: Ctx, rule: str) -> None:
                      "(N NUMBER, Q 8 bytes, L 4 bytes, B byte, V bit vector, S UTF-16 string, R raw bytes, @x sub-section; * = repeated): a field is missing, has another "
                      "width or sits on the other side of a loop on one side, so what py7zr writes is not what it reads back", construct=f"{cls} layout {lab}")
     ctx.floor(rule, n, 15, "section records compared between reader and writer")
+
+
+
+def off_when(f, e: ast.AST, pred, depth: int = 4) -> bool:
+    """is the boolean expression `e` guaranteed FALSE whenever a sub-expression satisfying `pred` is true?  (`parallel = not A and not B`
+    is off when A: a conjunct is the negation of something that is on when A).  Mentioning the flag is not enough: `parallel = A and ...`
+    mentions it too."""
+    if isinstance(e, ast.Constant):
+        return e.value is False
+    if isinstance(e, ast.UnaryOp) and isinstance(e.op, ast.Not):
+        return on_when(f, e.operand, pred, depth)
+    if isinstance(e, ast.BoolOp):
+        vals = [off_when(f, v, pred, depth) for v in e.values]
+        return any(vals) if isinstance(e.op, ast.And) else all(vals)
+    if isinstance(e, ast.Name) and depth > 0 and not pred(e):
+        vals = q.assigned_values(f, e.id)
+        return bool(vals) and all(off_when(f, v, pred, depth - 1) for v in vals)
+    return False
+
+
+def on_when(f, e: ast.AST, pred, depth: int = 4) -> bool:
+    """is `e` guaranteed TRUE whenever a sub-expression satisfying `pred` is true?"""
+    if pred(e):
+        return True
+    if isinstance(e, ast.UnaryOp) and isinstance(e.op, ast.Not):
+        return off_when(f, e.operand, pred, depth)
+    if isinstance(e, ast.BoolOp):
+        vals = [on_when(f, v, pred, depth) for v in e.values]
+        return all(vals) if isinstance(e.op, ast.And) else any(vals)
+    if isinstance(e, ast.Name) and depth > 0:
+        vals = q.assigned_values(f, e.id)
+        return bool(vals) and all(on_when(f, v, pred, depth - 1) for v in vals)
+    return False
+
+
+def implied_by_all(e: ast.AST, atoms) -> bool:
+    """is `e` true whenever ALL the atoms (normalised texts) are true?  e is one of the atoms, a conjunction of such, or a disjunction with one."""
+    if norm(e) in atoms:
+        return True
+    if isinstance(e, ast.BoolOp):
+        vals = [implied_by_all(v, atoms) for v in e.values]
+        return all(vals) if isinstance(e.op, ast.And) else any(vals)
+    return False
